@@ -1,6 +1,7 @@
 """Rules specific to the RV64 (K3) JIT back-end: CBRANCH constants / target / branch-form ranges and offset scatter,
 emitImm32 (addiw requirement, c.lui range), IMUL_RCP literal pool (store address == load address, bounds, no overlap
 with the fixed literals), scratchpad mask selection, E-mask literals, code-size bound."""
+import os
 import re
 
 import astq
@@ -940,3 +941,275 @@ def rule_cgsize(ctx, R, FI):
     sstart = gconst(ctx, F, 'randomx::SuperScalarHashOffset') - total
     need = sstart + gconst(ctx, F, 'randomx::sizeSshInit') + acc * (ssmax * sworst + gconst(ctx, F, 'randomx::sizeSshLoad') + gconst(ctx, F, 'randomx::sizeSshPrefetch')) + 2
     R.check(have is not None and need <= have, 'rv64 superscalar buffer', 'src/jit_compiler_rv64.cpp', expected='pool %d + init + %d x (%d x %d + load + prefetch) + ret = %d <= SuperscalarSize' % (sstart, acc, ssmax, sworst, need), found=have)
+
+
+# ---------------------------------------------------------------------------------------------------------------------------
+# [RVV-RCPPOOL] the RV64 vector program generator: literal n of a program is stored where the instruction emitted for it reads it
+
+class _RvvH:
+    """hooks for the concrete slice of the IMUL_RCP case: records the literal store and the emitted words"""
+
+    def __init__(self, F, d, s, imm):
+        self.F = F
+        self.words = []
+        self.lit_stores = []
+        self.d, self.s, self.imm = d, s, imm
+
+    def sizeof(self, base):
+        return None
+
+    def leaf(self, n, env, sl):
+        n0 = strip_all(n)
+        if n0['k'] == 'Un' and n0.get('op') == '&':
+            e = strip_all(n0['e'])
+            if e['k'] == 'Ref' and e.get('id') in env:
+                return ('&', e['id'])
+            return None
+        s_ = show(n0)
+        if n0['k'] == 'Mem':
+            if s_.endswith('.src'):
+                return self.s
+            if s_.endswith('.dst'):
+                return self.d
+            if s_.endswith('.mod'):
+                return 0
+        if n0['k'] == 'Idx':
+            b = strip_all(n0['b'])
+            i_ = sl.ev(n0['i'], env)
+            init = None
+            if b['k'] == 'Ref':
+                if b.get('q') and self.F.has_glob(b['q']):
+                    init = self.F.glob(b['q']).get('init')
+                if init is None and b.get('id') in getattr(self, 'local_tables', {}):
+                    init = self.local_tables[b['id']]
+            if init is not None and init.get('k') == 'InitList' and i_ is not None:
+                els = [val(e) for e in init['e']]
+                if 0 <= i_ < len(els):
+                    return els[i_]
+                self.bad_index = (show(n0), i_, len(els))
+                return None
+        if n0['k'] == 'Ref' and n0.get('q') and self.F.has_glob(n0['q']):
+            g = self.F.glob(n0['q'])
+            if 'v' in g:
+                return g['v']
+        return None
+
+    def call(self, n, args, env, sl):
+        nm = n.get('name')
+        if nm == 'memcpy' and len(args) == 3 and isinstance(args[1], tuple) and args[0] is not None and args[2] in (2, 4, 8):
+            v = env.get(args[1][1])
+            self.words.append((args[0], args[2], None if v is None else v & ((1 << (8 * args[2])) - 1)))
+            return ('value', args[0])
+        if nm == 'isZeroOrPowerOf2':
+            a = args[0]
+            return ('value', int(a is not None and (a & (a - 1)) == 0))
+        if nm in ('randomx_reciprocal_fast', 'randomx_reciprocal'):
+            return ('value', 0x1234567890ABCDEF)
+        if nm == 'getImm32':
+            return ('value', self.imm)
+        if nm in ('getModShift', 'getModMem', 'getModCond'):
+            return ('value', 0)
+        fn_ = n.get('fn')
+        if fn_ and self.F.has_func(fn_) and self.F.func(fn_).get('body') is not None and fn_.split('::')[-1] in ('imm_to_x5',):
+            return ('inline', self.F.func(fn_))
+        return None
+
+    def store(self, n, env, sl):
+        l = strip_all(n['l'])
+        if l['k'] == 'Un' and l.get('op') == '*':
+            e = strip_all(l['e'])
+            if e['k'] == 'Un' and '++' in e.get('op', '') and e.get('post'):
+                r = strip_all(e['e'])
+                if r['k'] == 'Ref' and r.get('id') in env:
+                    self.lit_stores.append(env[r['id']])
+                    env[r['id']] += sl.scale(r.get('ty')) or 8
+                    return
+            if e['k'] == 'Ref' and e.get('id') in env:
+                self.lit_stores.append(env[e['id']])
+                return
+
+
+def _rvv_template_literal_regs(ctx):
+    """which register the RVV program template loads from which literal slot: `ld xN, off(x18)` / `fld fN, off(x18)` after `lla x18, <literals>`.
+    (The vector template uses Zvkned mnemonics that the assembler available here rejects, so the source lines are parsed instead of an object file.)"""
+    p = os.path.join(ctx.repo, 'src', 'jit_compiler_rv64_vector_static.S')
+    if not os.path.exists(p):
+        raise AnalysisBroken('RVV-RCPPOOL: src/jit_compiler_rv64_vector_static.S not found')
+    xr, fr = {}, {}
+    active = False
+    for ln in open(p, errors='replace'):
+        t = ln.split('//')[0].split('#')[0].strip() if not ln.strip().startswith('#') else ''
+        m = re.match(r'^lla\s+x18\s*,\s*(\w+)', t)
+        if m:
+            active = 'rcp' in m.group(1)
+            continue
+        if not active:
+            continue
+        m = re.match(r'^(ld|fld)\s+([xf])(\d+)\s*,\s*(-?\d+)\(x18\)', t)
+        if m:
+            (xr if m.group(2) == 'x' else fr)[int(m.group(3))] = int(m.group(4))
+        elif re.match(r'^\w+:', t) or re.match(r'^(lla|la|li|mv)\s+x18\b', t):
+            active = False
+    return xr, fr
+
+
+def rule_rvv_rcp(ctx, R, FI):
+    import slice as slc
+    F, hs = jit.handlers(ctx, 'rvv')
+    R.rule('RVV-RCPPOOL', 'RV64 vector program generator, IMUL_RCP: for every literal index n below RANDOMX_PROGRAM_MAX_SIZE the reciprocal is stored in slot n of the literal area and the instruction emitted for it multiplies by '
+           'that slot: the register the template pre-loads from displacement 8n of the literal pointer, or `ld x5, 8n(x18)` whose sign-extended 12-bit displacement is decoded from the emitted word; the destination register is '
+           'the VM register of the instruction; decided by evaluating the address arithmetic of the case for each n', min_instances=300)
+    R.saw(config='K3', unit='src/jit_compiler_rv64_vector.cpp')
+    h = hs['IMUL_RCP'].f
+    g = F.func(jit.ARCH['rvv']['generator'])
+    where = '%s:%d' % (h['file'], h['line'])
+    pmax = int(FI.macro('RANDOMX_PROGRAM_MAX_SIZE')['body'])
+    xr, fr = _rvv_template_literal_regs(ctx)
+    if len(xr) + len(fr) < 8:
+        raise AnalysisBroken('RVV-RCPPOOL: pre-loaded literal registers not found in the template (%d)' % (len(xr) + len(fr)))
+    # the locals of the generator that the case uses: the literal cursor (pointer that is post-incremented through), its base, the code cursor
+    body = {'k': 'Compound', 's': h['body']['s']}
+    cursor = None
+    for x in walk(body):
+        if x['k'] == 'Un' and '++' in x.get('op', '') and strip_all(x['e'])['k'] == 'Ref' and '*' in (strip_all(x['e']).get('ty') or ''):
+            cursor = strip_all(x['e'])
+    if cursor is None:
+        raise AnalysisBroken('RVV-RCPPOOL: literal cursor not found in the IMUL_RCP case')
+    base = None
+    for x in walk(g['body']):
+        if x['k'] == 'Decl':
+            for d in x['d']:
+                if d.get('id') == cursor.get('id') and d.get('init') is not None:
+                    b = strip_all(d['init'])
+                    while b['k'] == 'Cast':
+                        b = strip_all(b['e'])
+                    if b['k'] == 'Ref':
+                        base = b
+    if base is None:
+        raise AnalysisBroken('RVV-RCPPOOL: the literal cursor is not initialised from a base pointer')
+    pvars = [c['a'][0] for c in calls(body) if c.get('name') == 'memcpy' and c.get('a')]
+    pid = ref_id_any(pvars[0]) if pvars else None
+    if pid is None:
+        raise AnalysisBroken('RVV-RCPPOOL: code cursor not found')
+    tables = {}
+    for x in walk(body):
+        if x['k'] == 'Decl':
+            for d in x['d']:
+                if d.get('init') is not None and d['init'].get('k') == 'InitList':
+                    tables[d['id']] = d['init']
+    LIT, CODE = 0x40000000, 0x50000000
+    n_ok = 0
+    for n in range(pmax):
+        for d in ((2, 7) if n % 16 == 0 else (2,)):
+            hk = _RvvH(F, d, (d + 3) % 8, 0x12345679)
+            hk.local_tables = tables
+            sl = slc.Slice(F, hk, {}, limit=5000, what='RVV-RCPPOOL')
+            env = {cursor['id']: LIT + 8 * n, base['id']: LIT, pid: CODE}
+            try:
+                sl.run(body, env)
+            except slc.NeedChoice as e:
+                raise AnalysisBroken('RVV-RCPPOOL: condition %s is not decided by the literal index' % e.key)
+            why = []
+            if hk.lit_stores != [LIT + 8 * n]:
+                why.append('literal stored at %s' % ['slot %s' % ((a - LIT) / 8.0) for a in hk.lit_stores])
+            if env.get(cursor['id']) != LIT + 8 * (n + 1):
+                why.append('cursor not advanced by one slot')
+            if getattr(hk, 'bad_index', None):
+                why.append('table %s indexed with %d (size %d)' % hk.bad_index)
+            ws = [w for w in hk.words]
+            if any(w[2] is None for w in ws):
+                raise AnalysisBroken('RVV-RCPPOOL: an emitted word is not a constant for literal %d' % n)
+            mul, desc = _rvv_decode(ws, xr, fr)
+            if mul is None:
+                why.append('no multiplication emitted')
+            else:
+                rd, rs1, held = mul
+                if rd != 20 + d or rs1 != 20 + d:
+                    why.append('multiplies x%d into x%d (the VM register is x%d)' % (rs1, rd, 20 + d))
+                if held != ('lit', 8 * n):
+                    why.append('multiplies by %s' % ('literal slot %s' % (held[1] / 8.0) if held and held[0] == 'lit' else 'a register that does not hold a literal (%s)' % (held,)))
+            n_ok += 1
+            R.check(not why, 'rvv rcp literal %d (dst r%d)' % (n, d), where, expected='stored in slot %d and multiplied from slot %d (displacement %d of x18)' % (n, n, 8 * n),
+                    found='; '.join(why) + ' [' + ' ; '.join(desc) + ']' if why else 'as expected')
+    if n_ok < 300:
+        raise AnalysisBroken('RVV-RCPPOOL: only %d cases' % n_ok)
+
+
+def _rvv_decode(ws, xr, fr):
+    """abstract run of the words emitted for one IMUL_RCP: registers hold ('lit', displacement) / ('ptr', displacement from x18) / ('const', v)"""
+    st = {('x', 18): ('ptr', 0), ('x', 0): ('const', 0)}
+    for r_, off in xr.items():
+        st[('x', r_)] = ('lit', off)
+    for r_, off in fr.items():
+        st[('f', r_)] = ('lit', off)
+    mul = None
+    desc = []
+    for addr, size, w in ws:
+        if size == 2:
+            q, f3 = w & 3, w >> 13
+            rd = (w >> 7) & 31
+            if q == 1 and f3 == 3 and rd not in (0, 2):           # c.lui
+                imm = sx((((w >> 12) & 1) << 17) | (((w >> 2) & 31) << 12), 18)
+                st[('x', rd)] = ('const', imm)
+                desc.append('c.lui x%d, %#x' % (rd, (imm >> 12) & 0xfffff))
+            elif q == 1 and f3 == 2:                                # c.li
+                imm = sx((((w >> 12) & 1) << 5) | ((w >> 2) & 31), 6)
+                st[('x', rd)] = ('const', imm)
+                desc.append('c.li x%d, %d' % (rd, imm))
+            elif q == 2 and (w >> 12) == 9 and rd != 0 and ((w >> 2) & 31) != 0:     # c.add
+                rs2 = (w >> 2) & 31
+                a_, b_ = st.get(('x', rd)), st.get(('x', rs2))
+                desc.append('c.add x%d, x%d' % (rd, rs2))
+                if a_ and b_ and {a_[0], b_[0]} == {'const', 'ptr'}:
+                    st[('x', rd)] = ('ptr', a_[1] + b_[1])
+                elif a_ and b_ and a_[0] == b_[0] == 'const':
+                    st[('x', rd)] = ('const', a_[1] + b_[1])
+                else:
+                    st[('x', rd)] = None
+            else:
+                desc.append('half-word %#06x' % w)
+            continue
+        if size != 4:
+            desc.append('%d-byte datum' % size)
+            continue
+        opc, rd, f3, rs1, rs2, f7 = w & 0x7f, (w >> 7) & 31, (w >> 12) & 7, (w >> 15) & 31, (w >> 20) & 31, w >> 25
+        if opc == 0x37:                                             # lui
+            st[('x', rd)] = ('const', sx(w & 0xfffff000, 32))
+            desc.append('lui x%d, %#x' % (rd, w >> 12))
+        elif opc in (0x13, 0x1b) and f3 == 0:                       # addi / addiw
+            imm = sx(w >> 20, 12)
+            a_ = st.get(('x', rs1))
+            desc.append('%s x%d, x%d, %d' % ('addi' if opc == 0x13 else 'addiw', rd, rs1, imm))
+            if a_ and a_[0] in ('const', 'ptr'):
+                v = a_[1] + imm
+                st[('x', rd)] = (a_[0], sx(v, 32) if (opc == 0x1b and a_[0] == 'const') else v)
+            else:
+                st[('x', rd)] = None
+        elif opc == 0x33 and f7 == 0 and f3 == 0:                   # add
+            a_, b_ = st.get(('x', rs1)), st.get(('x', rs2))
+            desc.append('add x%d, x%d, x%d' % (rd, rs1, rs2))
+            if a_ and b_ and {a_[0], b_[0]} == {'const', 'ptr'}:
+                st[('x', rd)] = ('ptr', a_[1] + b_[1])
+            else:
+                st[('x', rd)] = None
+        elif opc == 0x03 and f3 == 3:                               # ld
+            imm = sx(w >> 20, 12)
+            a_ = st.get(('x', rs1))
+            desc.append('ld x%d, %d(x%d)' % (rd, imm, rs1))
+            st[('x', rd)] = ('lit', a_[1] + imm) if a_ and a_[0] == 'ptr' else None
+        elif opc == 0x53 and f7 == 0x71 and f3 == 0 and rs2 == 0:   # fmv.x.d
+            desc.append('fmv.x.d x%d, f%d' % (rd, rs1))
+            st[('x', rd)] = st.get(('f', rs1))
+        elif opc == 0x33 and f7 == 1 and f3 == 0:                   # mul
+            desc.append('mul x%d, x%d, x%d' % (rd, rs1, rs2))
+            mul = (rd, rs1, st.get(('x', rs2)))
+        else:
+            desc.append('word %#010x' % w)
+    return mul, desc
+
+
+def ref_id_any(n):
+    n = strip_all(n)
+    while n['k'] == 'Cast':
+        n = strip_all(n['e'])
+    return n.get('id') if n['k'] == 'Ref' else None
